@@ -105,6 +105,8 @@ struct Inputs {
     atoms: Vec<usize>,
     /// all terms of all inputs
     all_terms: u32,
+    /// pair_list(n)
+    pairs: Vec<(usize, usize)>,
 }
 
 impl Inputs {
@@ -131,7 +133,7 @@ impl Inputs {
             first_atoms.push(a);
             atoms.extend(bits_of(a));
         }
-        Inputs { sets: sets.to_vec(), first_atoms, atoms, all_terms }
+        Inputs { sets: sets.to_vec(), first_atoms, atoms, all_terms, pairs: pair_list(sets.len()) }
     }
     /// Non-empty input sets that may overlap or be equal (only used with a `Table::for_subsets` table).
     fn overlapping(sets: &[u32]) -> Inputs {
@@ -140,7 +142,7 @@ impl Inputs {
             assert!(s != 0 && s & 1 == 0 && s >> (MAX_TERM + 1) == 0, "C17 harness: input term out of range");
             all_terms |= s;
         }
-        Inputs { sets: sets.to_vec(), first_atoms: sets.to_vec(), atoms: bits_of(all_terms), all_terms }
+        Inputs { sets: sets.to_vec(), first_atoms: sets.to_vec(), atoms: bits_of(all_terms), all_terms, pairs: pair_list(sets.len()) }
     }
     fn overlaps(&self) -> bool {
         (0..self.n()).any(|i| (i + 1..self.n()).any(|j| self.sets[i] & self.sets[j] != 0))
@@ -291,6 +293,12 @@ enum Family {
     /// the Spread values, but the first two ranks >= 1 whose pairs share an input get the SAME value:
     /// two inputs exactly equidistant from a third while the closest pair is unique
     EqualPair,
+    /// the Spread values minus the value of rank 0 / 1 / m/2 / m-1: that pair is at exactly 0.0, the closer
+    /// pairs are negative, the others positive (tie-free)
+    ZeroRank0,
+    ZeroRank1,
+    ZeroRankMid,
+    ZeroRankTop,
 }
 
 impl Family {
@@ -312,11 +320,15 @@ impl Family {
             Family::Subnormal => "subnormal",
             Family::Top => "top-of-range",
             Family::EqualPair => "two-equal",
+            Family::ZeroRank0 => "zero-at-rank-0",
+            Family::ZeroRank1 => "zero-at-rank-1",
+            Family::ZeroRankMid => "zero-at-middle-rank",
+            Family::ZeroRankTop => "zero-at-top-rank",
         }
     }
     fn scale(self, m: usize) -> f64 {
         match self {
-            Family::Spread | Family::InfTop | Family::NegOne | Family::NegHalf | Family::NegAll | Family::EqualPair => (1u64 << (m + 6)) as f64,
+            Family::Spread | Family::InfTop | Family::NegOne | Family::NegHalf | Family::NegAll | Family::EqualPair | Family::ZeroRank0 | Family::ZeroRank1 | Family::ZeroRankMid | Family::ZeroRankTop => (1u64 << (m + 6)) as f64,
             Family::Subnormal => 2f64.powi(149),
             Family::Top => {
                 let top = if m == 0 { 1 } else { base_int(Family::Spread, m - 1, m) };
@@ -366,9 +378,23 @@ fn negative_offset(k: usize, m: usize) -> u64 {
     }
 }
 
+/// The rank whose pair a zero family puts at exactly 0.0.
+fn zero_rank(fam: Family, m: usize) -> Option<usize> {
+    if m == 0 {
+        return None;
+    }
+    match fam {
+        Family::ZeroRank0 => Some(0),
+        Family::ZeroRank1 => Some(1.min(m - 1)),
+        Family::ZeroRankMid => Some(m / 2),
+        Family::ZeroRankTop => Some(m - 1),
+        _ => None,
+    }
+}
+
 fn base_int(fam: Family, rank: usize, m: usize) -> u64 {
     match fam {
-        Family::Spread | Family::InfTop | Family::NegOne | Family::NegHalf | Family::NegAll | Family::Tiny30 | Family::Tiny60 | Family::Tiny100 | Family::Huge60 | Family::Top | Family::EqualPair => (((rank as u64) + 1) << m) | (1u64 << rank),
+        Family::Spread | Family::InfTop | Family::NegOne | Family::NegHalf | Family::NegAll | Family::Tiny30 | Family::Tiny60 | Family::Tiny100 | Family::Huge60 | Family::Top | Family::EqualPair | Family::ZeroRank0 | Family::ZeroRank1 | Family::ZeroRankMid | Family::ZeroRankTop => (((rank as u64) + 1) << m) | (1u64 << rank),
         Family::Subnormal => 8 * ((((rank as u64) + 1) << m) | (1u64 << rank)) + 1,
         Family::MixedTiny2 | Family::MixedTinyHalf => {
             let spread = (((rank as u64) + 1) << m) | (1u64 << rank);
@@ -426,7 +452,10 @@ impl Table {
                 }
             }
         }
-        let offset = negative_offset(negatives(fam, m), m) as f64;
+        let offset = match zero_rank(fam, m) {
+            Some(r) => base_int(Family::Spread, r, m) as f64,
+            None => negative_offset(negatives(fam, m), m) as f64,
+        };
         Table { m, ival, inf, fixed: None, scale: fam.scale(m), offset, subsets: None }
     }
 
@@ -532,8 +561,10 @@ fn selfcheck_values(m: usize, fam: Family) {
 #[derive(Default)]
 struct Rec {
     calls: u32,
-    /// pairs of the first invocation (term content masks), in the order received
+    /// the first n(n-1)/2 pairs received (term content masks), in the order received: the initial phase
     first: Vec<(u32, u32)>,
+    /// number of invocations the initial phase took
+    initial_calls: u32,
     /// (invocation, lhs content, rhs content) of all later invocations
     later: Vec<(u32, u32, u32)>,
     /// terms received that belong to no input
@@ -552,6 +583,7 @@ impl Rec {
     fn clear(&mut self) {
         self.calls = 0;
         self.first.clear();
+        self.initial_calls = 0;
         self.later.clear();
         self.foreign = 0;
         self.selfpairs = 0;
@@ -816,41 +848,25 @@ fn run_lib(ont: &Ontology, inp: &Inputs, method: Method, table: &Table, rec: &Re
                 table.value(a, b)
             }
         };
-        if call == 0 {
-            for (a, b) in combs {
-                let xa = content_of(a, inp.all_terms, &mut rec);
-                let xb = content_of(b, inp.all_terms, &mut rec);
+        // The initial phase lasts until n(n-1)/2 pairs have been received, in however many invocations. Inside
+        // it the k-th pair is keyed by input index (pair k in Combinations order) if its contents are those of
+        // that pair of inputs - for inputs of distinct content the same as keyed by content - else by content.
+        let expected = n_pairs(n);
+        for (a, b) in combs {
+            let xa = content_of(a, inp.all_terms, &mut rec);
+            let xb = content_of(b, inp.all_terms, &mut rec);
+            let k = rec.first.len();
+            if k < expected {
                 rec.first.push((xa, xb));
-            }
-            // initial call: keyed by input index (pair k is the k-th pair in Combinations order), which for
-            // non-empty inputs is the same as keyed by content; if the number of pairs is not the expected
-            // one (reported by the oracle) fall back to content
-            let expected = n_pairs(n);
-            if rec.first.len() == expected {
-                let mut k = 0;
-                for i in 0..n {
-                    for j in i + 1..n {
-                        let (xa, xb) = rec.first[k];
-                        if (xa, xb) == (inp.sets[i], inp.sets[j]) {
-                            out.push(table.initial(inp, i, j));
-                        } else {
-                            let v = by_content(&mut rec, xa, xb);
-                            out.push(v);
-                        }
-                        k += 1;
-                    }
-                }
-            } else {
-                for k in 0..rec.first.len() {
-                    let (xa, xb) = rec.first[k];
+                rec.initial_calls = call + 1;
+                let (i, j) = inp.pairs[k];
+                if (xa, xb) == (inp.sets[i], inp.sets[j]) {
+                    out.push(table.initial(inp, i, j));
+                } else {
                     let v = by_content(&mut rec, xa, xb);
                     out.push(v);
                 }
-            }
-        } else {
-            for (a, b) in combs {
-                let xa = content_of(a, inp.all_terms, &mut rec);
-                let xb = content_of(b, inp.all_terms, &mut rec);
+            } else {
                 rec.later.push((call, xa, xb));
                 let v = by_content(&mut rec, xa, xb);
                 out.push(v);
@@ -898,10 +914,30 @@ fn run_lib(ont: &Ontology, inp: &Inputs, method: Method, table: &Table, rec: &Re
 // Reference: naive agglomerative clustering
 // ------------------------------------------------------------------------------------------
 
+/// One unit in the last place of an f32 value (2^-149 for zero and subnormals; 0 for non-finite values).
+fn ulp(v: f32) -> f64 {
+    if !v.is_finite() {
+        return 0.0;
+    }
+    let a = v.abs();
+    let next = f32::from_bits(a.to_bits() + 1);
+    if next.is_finite() {
+        next as f64 - a as f64
+    } else {
+        a as f64 - f32::from_bits(a.to_bits() - 1) as f64
+    }
+}
+
 struct RefRun {
     /// (a, b, distance, size) with a < b
     merges: Vec<(usize, usize, f32, usize)>,
-    /// first step at which two live pairs shared the minimal distance
+    /// `average` only: how far the reported distance of the merge may be from the reference value. "Mean of
+    /// the two parts" does not fix the arithmetic: (x+y)/2 in f32, x/2 + y/2, or a mean in f64 rounded once
+    /// are all means; each mean may therefore be off by one unit in the last place, and a mean of such means
+    /// inherits half of each part's deviation. 0 for the other methods and for the initial distances.
+    errs: Vec<f64>,
+    /// first step at which two live pairs shared the minimal distance (for `average`: were closer to each other
+    /// than the deviations their values may have)
     tie_at: Option<usize>,
     /// `average` only: the first merge whose outcome depends on a mean of two finite values whose SUM overflows
     /// f32 (the documented "mean" is finite, the sum-then-halve arithmetic gives +inf): don't-care from there on
@@ -927,7 +963,9 @@ fn reference(inp: &Inputs, method: Method, table: &Table) -> RefRun {
             d[j][i] = v;
         }
     }
-    let mut out = RefRun { merges: Vec::with_capacity(n), tie_at: None, overflow_from: None };
+    let mut out = RefRun { merges: Vec::with_capacity(n), errs: Vec::with_capacity(n), tie_at: None, overflow_from: None };
+    // `average`: admissible deviation of every stored distance (see RefRun::errs)
+    let mut err = [[0f64; MAX_NODES]; MAX_NODES];
     for k in 0..n.saturating_sub(1) {
         let nodes = n + k;
         // the closest live pair, and how many live pairs are at that distance
@@ -953,6 +991,19 @@ fn reference(inp: &Inputs, method: Method, table: &Table) -> RefRun {
         if at_best > 1 && out.tie_at.is_none() {
             out.tie_at = Some(k);
         }
+        if method == Method::Average && out.tie_at.is_none() {
+            // another live pair whose interval of admissible values reaches below the upper end of the best one's
+            let reach = v as f64 + err[a][b];
+            'near: for a2 in 0..nodes {
+                for b2 in a2 + 1..nodes {
+                    if live[a2] && live[b2] && (a2, b2) != (a, b) && d[a2][b2] as f64 - err[a2][b2] <= reach {
+                        out.tie_at = Some(k);
+                        break 'near;
+                    }
+                }
+            }
+        }
+        out.errs.push(if method == Method::Average { err[a][b] } else { 0.0 });
         let new = nodes;
         content[new] = content[a] | content[b];
         size[new] = size[a] + size[b];
@@ -987,6 +1038,11 @@ fn reference(inp: &Inputs, method: Method, table: &Table) -> RefRun {
             };
             d[c][new] = nv;
             d[new][c] = nv;
+            if method == Method::Average {
+                let e = (err[c][a] + err[c][b]) / 2.0 + ulp(nv);
+                err[c][new] = e;
+                err[new][c] = e;
+            }
         }
         live[a] = false;
         live[b] = false;
@@ -1022,7 +1078,7 @@ fn fmt_pairs(p: &[(u32, u32)]) -> String {
 fn check(inp: &Inputs, method: Method, obs: &Obs, rf: &RefRun, rec: &Rec) -> Option<Fail> {
     let n = inp.n();
     let site = method.site();
-    // ---- callback accounting (first invocation)
+    // ---- callback accounting (initial phase: the first n(n-1)/2 pairs, in one or several invocations)
     if rec.calls == 0 {
         return fail(site, "the distance callback is never invoked", format!("n={n}"));
     }
@@ -1038,7 +1094,7 @@ fn check(inp: &Inputs, method: Method, obs: &Obs, rf: &RefRun, rec: &Rec) -> Opt
             return fail(
                 site,
                 "the initial distance call does not receive each unordered pair of inputs exactly once",
-                format!("n={n}: expected {} pairs, received {}: {}", pairs.len(), rec.first.len(), fmt_pairs(&rec.first)),
+                format!("n={n}: expected {} pairs before any pair with a merged set, the first {} pairs received are: {}", pairs.len(), rec.first.len(), fmt_pairs(&rec.first)),
             );
         }
         // The order of the pairs inside the initial call is not part of the property. The harness only relies
@@ -1112,35 +1168,35 @@ fn check(inp: &Inputs, method: Method, obs: &Obs, rf: &RefRun, rec: &Rec) -> Opt
             return fail("Linkage::indicies", "indicies() is not a permutation of 0..n", format!("n={n}: {:?}", obs.indicies));
         }
     }
-    // ---- later invocations (union): the new cluster must be presented as the exact union of the merged
-    //      sets (by the library's own merges), the other side must be a live cluster (or the new one itself)
+    // ---- pairs after the initial phase (union): each must be matched BY CONTENT to one of the library's own
+    //      merges: one side (either position) is exactly the union of the two sets joined by some merge k, the
+    //      other side is a cluster that is live right after merge k (or that union itself). Which invocation a
+    //      pair arrives in is not demanded.
     if !rec.later.is_empty() {
         let mut content = [0u32; MAX_NODES];
         for i in 0..n {
             content[i] = inp.sets[i];
         }
+        let mut dead = [usize::MAX; MAX_NODES]; // the merge that consumed the index
         for (k, &(l, r, _, _)) in obs.cluster.iter().enumerate() {
             content[n + k] = content[l] | content[r];
+            dead[l] = k;
+            dead[r] = k;
         }
+        let live_after = |k: usize, c: u32| (0..=n + k).any(|x| content[x] == c && dead[x] > k);
         for &(call, ca, cb) in &rec.later {
-            let k = call as usize - 1; // the invocation after merge k
-            if k >= n - 1 {
-                continue;
-            }
-            let new = n + k;
-            // live after merge k: every index <= new not consumed by merges 0..=k
-            let live_has = |c: u32| (0..=new).any(|x| content[x] == c && !obs.cluster[..=k].iter().any(|m| m.0 == x || m.1 == x));
-            if ca != content[new] || !live_has(cb) {
+            let matched = (0..n - 1).any(|k| (ca == content[n + k] && live_after(k, cb)) || (cb == content[n + k] && live_after(k, ca)));
+            if !matched {
+                let unions: Vec<Vec<usize>> = (0..n - 1).map(|k| bits_of(content[n + k])).collect();
                 return fail(
                     "Linkage::union",
                     "distance callback received a set that is not the union of the merged sets",
                     format!(
-                        "n={n}: after merge {k} = ({},{}) the new cluster is the union {:?}; the callback was asked for ({:?}, {:?})",
-                        obs.cluster[k].0,
-                        obs.cluster[k].1,
-                        bits_of(content[new]),
+                        "n={n}: invocation {call} asks for ({:?}, {:?}); no merge of {:?} forms one of these sets as the union of its two parts with the other one live at that moment (unions formed: {:?})",
                         bits_of(ca),
-                        bits_of(cb)
+                        bits_of(cb),
+                        fmt_merges(&obs.cluster),
+                        unions
                     ),
                 );
             }
@@ -1162,11 +1218,12 @@ fn check(inp: &Inputs, method: Method, obs: &Obs, rf: &RefRun, rec: &Rec) -> Opt
                 format!("n={n}: merge {k} joins ({l},{r}) at {}, the closest pair is ({a},{b}) at {v}", f32::from_bits(dbits)),
             );
         }
-        if dbits != v.to_bits() {
+        let distance_ok = if method == Method::Average { (f32::from_bits(dbits) as f64 - v as f64).abs() <= rf.errs[k] || dbits == v.to_bits() } else { dbits == v.to_bits() };
+        if !distance_ok {
             return fail(
                 site,
                 "the reported distance of a merge is not the distance of the joined pair under the method's update rule",
-                format!("n={n}: merge {k} joins ({l},{r}) reporting {}, the distance of that pair is {v}", f32::from_bits(dbits)),
+                format!("n={n}: merge {k} joins ({l},{r}) reporting {:e}, the distance of that pair is {v:e}{}", f32::from_bits(dbits), if method == Method::Average { format!(" (admissible deviation of a mean of means: {:e})", rf.errs[k]) } else { String::new() }),
             );
         }
     }
@@ -1744,66 +1801,85 @@ fn describe_all(f: &[Inputs]) -> String {
 }
 
 // ------------------------------------------------------------------------------------------
-// Many inputs (n = 64 .. 300): separate, vector based machinery (the small-n code uses fixed arrays)
+// Many inputs / large input sets: separate, vector based machinery (the small-n code uses fixed arrays)
 // ------------------------------------------------------------------------------------------
 
-/// input i is the singleton {BIG_BASE + i}; the big ontology is root 1 + BIG_TERMS children
+/// the big ontology is root 1 + BIG_TERMS children BIG_BASE..; a set is a sorted list of term indices (id - BIG_BASE)
 const BIG_BASE: u32 = 1000;
-const BIG_TERMS: usize = 310;
-/// a prime above the number of pairs of 300 inputs (44 850); all base distances are in 1..=BIG_M, exact in f32
-const BIG_M: u64 = 65537;
-const BIG_SCALE: f64 = 131072.0;
+const BIG_TERMS: usize = 410;
+/// a prime above the number of pairs of 410 terms (83 845); formula distances are in 1..=BIG_M, exact in f32
+const BIG_M: u64 = 131071;
+const BIG_SCALE: f64 = 262144.0;
 
-/// base distance (integer) of the pair with index p = ((p * a + b) mod BIG_M) + 1: a bijection on 0..BIG_M,
-/// so all pairs are at distinct distances
-#[derive(Clone, Copy, Debug)]
-struct BigLayout {
-    name: &'static str,
-    a: u64,
-    b: u64,
+/// Base distance (an integer, value = integer / 2^18) of two different terms x < y:
+/// Formula: pair index p = x*N - x(x+1)/2 + (y-x-1) over N = BIG_TERMS terms -> ((p * a + b) mod BIG_M) + 1, a
+///   bijection on 0..BIG_M, so all term pairs are at distinct distances;
+/// Matrix: an explicit table over the first k terms (used to force a merge history).
+/// Two different sets are at the mean over all pairs (a in A, b in B), a term being at 0 from itself (overlapping sets).
+#[derive(Clone, Debug)]
+enum BigLayout {
+    Formula { name: &'static str, a: u64, b: u64 },
+    Matrix { name: String, k: usize, ints: Vec<u64> },
 }
 
-const BIG_LAYOUTS: [BigLayout; 4] = [
-    BigLayout { name: "scattered", a: 40503, b: 12345 },
-    BigLayout { name: "ascending in pair order", a: 1, b: 0 },
-    BigLayout { name: "descending in pair order", a: BIG_M - 1, b: BIG_M - 1 },
-    BigLayout { name: "scattered-2", a: 25717, b: 7 },
-];
-
-fn big_int(n: usize, l: BigLayout, i: usize, j: usize) -> u64 {
-    let (lo, hi) = (i.min(j) as u64, i.max(j) as u64);
-    let p = lo * n as u64 - lo * (lo + 1) / 2 + (hi - lo - 1);
-    (p * l.a + l.b) % BIG_M + 1
+fn big_layout(i: usize) -> BigLayout {
+    match i {
+        0 => BigLayout::Formula { name: "scattered", a: 40503, b: 12345 },
+        1 => BigLayout::Formula { name: "ascending in pair order", a: 1, b: 0 },
+        2 => BigLayout::Formula { name: "descending in pair order", a: BIG_M - 1, b: BIG_M - 1 },
+        _ => BigLayout::Formula { name: "scattered-2", a: 25717, b: 7 },
+    }
 }
 
-/// distance of two disjoint non-empty member lists: mean of the base distances (exact integer sum, one rounding)
-fn big_value(n: usize, l: BigLayout, a: &[u16], b: &[u16]) -> f32 {
-    let mut sum = 0u64;
-    for &i in a {
-        for &j in b {
-            sum += big_int(n, l, i as usize, j as usize);
+impl BigLayout {
+    fn name(&self) -> String {
+        match self {
+            BigLayout::Formula { name, .. } => name.to_string(),
+            BigLayout::Matrix { name, .. } => name.clone(),
         }
     }
-    (sum as f64 / (a.len() * b.len()) as f64 / BIG_SCALE) as f32
+    fn int(&self, x: usize, y: usize) -> u64 {
+        if x == y {
+            return 0;
+        }
+        match self {
+            BigLayout::Formula { a, b, .. } => {
+                let (lo, hi) = (x.min(y) as u64, x.max(y) as u64);
+                let p = lo * BIG_TERMS as u64 - lo * (lo + 1) / 2 + (hi - lo - 1);
+                (p * a + b) % BIG_M + 1
+            }
+            BigLayout::Matrix { k, ints, .. } => ints[x * k + y],
+        }
+    }
+    /// distance of two non-empty, different sets
+    fn value(&self, a: &[u16], b: &[u16]) -> f32 {
+        let mut sum = 0u64;
+        for &i in a {
+            for &j in b {
+                sum += self.int(i as usize, j as usize);
+            }
+        }
+        (sum as f64 / (a.len() * b.len()) as f64 / BIG_SCALE) as f32
+    }
 }
 
 #[derive(Default)]
 struct BigRec {
     calls: u32,
-    /// (invocation, lhs members, rhs members)
+    /// (invocation, lhs terms, rhs terms), in the order received
     pairs: Vec<(u32, Vec<u16>, Vec<u16>)>,
     /// sets with a foreign term / not strictly ascending / len() != number of terms: first example
     malformed: u32,
     malformed_example: Option<(Vec<u32>, usize)>,
 }
 
-fn big_members(set: &HpoSet<'_>, n: usize, rec: &mut BigRec) -> Vec<u16> {
+fn big_members(set: &HpoSet<'_>, rec: &mut BigRec) -> Vec<u16> {
     let mut out = Vec::with_capacity(set.len());
     let mut ok = true;
     let mut prev: Option<u32> = None;
     for t in set.iter() {
         let id = t.id().as_u32();
-        if prev.map_or(false, |p| p >= id) || id < BIG_BASE || id >= BIG_BASE + n as u32 {
+        if prev.map_or(false, |p| p >= id) || id < BIG_BASE || id >= BIG_BASE + BIG_TERMS as u32 {
             ok = false;
         } else {
             out.push((id - BIG_BASE) as u16);
@@ -1819,26 +1895,29 @@ fn big_members(set: &HpoSet<'_>, n: usize, rec: &mut BigRec) -> Vec<u16> {
     out
 }
 
-fn big_run_lib(ont: &Ontology, n: usize, method: Method, l: BigLayout, rec: &RefCell<BigRec>, adaptor: Adaptor) -> Result<Obs, String> {
+fn big_run_lib(ont: &Ontology, inputs: &[Vec<u16>], method: Method, l: &BigLayout, rec: &RefCell<BigRec>, adaptor: Adaptor) -> Result<Obs, String> {
     let cb = |combs: Combinations<HpoSet<'_>>| -> Vec<f32> {
         let mut rec = rec.borrow_mut();
         let call = rec.calls;
         rec.calls += 1;
         let mut out = Vec::new();
         for (a, b) in combs {
-            let ma = big_members(a, n, &mut rec);
-            let mb = big_members(b, n, &mut rec);
-            let v = if ma.is_empty() || mb.is_empty() || ma == mb || ma.iter().any(|x| mb.contains(x)) { 0.0 } else { big_value(n, l, &ma, &mb) };
+            let ma = big_members(a, &mut rec);
+            let mb = big_members(b, &mut rec);
+            let v = if ma.is_empty() || mb.is_empty() || ma == mb { 0.0 } else { l.value(&ma, &mb) };
             out.push(v);
             rec.pairs.push((call, ma, mb));
         }
         out
     };
     guard(|| {
-        let sets: Vec<HpoSet<'_>> = (0..n)
-            .map(|i| {
+        let sets: Vec<HpoSet<'_>> = inputs
+            .iter()
+            .map(|ts| {
                 let mut g = HpoGroup::new();
-                g.insert(BIG_BASE + i as u32);
+                for &t in ts {
+                    g.insert(BIG_BASE + t as u32);
+                }
                 HpoSet::new(ont, g)
             })
             .collect();
@@ -1864,24 +1943,36 @@ fn big_run_lib(ont: &Ontology, n: usize, method: Method, l: BigLayout, rec: &Ref
     })
 }
 
-/// The same naive agglomerative clustering as `reference`, on vectors.
-fn big_reference(n: usize, method: Method, l: BigLayout) -> RefRun {
+fn sorted_union(a: &[u16], b: &[u16]) -> Vec<u16> {
+    let mut m = a.to_vec();
+    m.extend_from_slice(b);
+    m.sort_unstable();
+    m.dedup();
+    m
+}
+
+/// The same naive agglomerative clustering as `reference`, on vectors; inputs of distinct content.
+fn big_reference(inputs: &[Vec<u16>], method: Method, l: &BigLayout) -> RefRun {
+    let n = inputs.len();
     let nodes_max = 2 * n - 1;
     let mut d = vec![0f32; nodes_max * nodes_max];
+    let mut err = if method == Method::Average { vec![0f64; nodes_max * nodes_max] } else { vec![] };
     let mut live = vec![false; nodes_max];
     let mut members: Vec<Vec<u16>> = vec![vec![]; nodes_max];
+    let mut size = vec![0usize; nodes_max];
     for i in 0..n {
         live[i] = true;
-        members[i] = vec![i as u16];
+        members[i] = inputs[i].clone();
+        size[i] = 1;
     }
     for i in 0..n {
         for j in i + 1..n {
-            let v = (big_int(n, l, i, j) as f64 / BIG_SCALE) as f32;
+            let v = l.value(&inputs[i], &inputs[j]);
             d[i * nodes_max + j] = v;
             d[j * nodes_max + i] = v;
         }
     }
-    let mut out = RefRun { merges: Vec::with_capacity(n), tie_at: None, overflow_from: None };
+    let mut out = RefRun { merges: Vec::with_capacity(n), errs: Vec::with_capacity(n), tie_at: None, overflow_from: None };
     for k in 0..n - 1 {
         let nodes = n + k;
         let mut best: Option<(usize, usize, f32)> = None;
@@ -1909,11 +2000,26 @@ fn big_reference(n: usize, method: Method, l: BigLayout) -> RefRun {
         if at_best > 1 && out.tie_at.is_none() {
             out.tie_at = Some(k);
         }
+        if method == Method::Average && out.tie_at.is_none() {
+            let reach = v as f64 + err[a * nodes_max + b];
+            'near: for a2 in 0..nodes {
+                if !live[a2] {
+                    continue;
+                }
+                for b2 in a2 + 1..nodes {
+                    if live[b2] && (a2, b2) != (a, b) && d[a2 * nodes_max + b2] as f64 - err[a2 * nodes_max + b2] <= reach {
+                        out.tie_at = Some(k);
+                        break 'near;
+                    }
+                }
+            }
+        }
+        out.errs.push(if method == Method::Average { err[a * nodes_max + b] } else { 0.0 });
         let new = nodes;
-        let mut mem = members[a].clone();
-        mem.extend_from_slice(&members[b]);
-        mem.sort_unstable();
-        members[new] = mem;
+        if method == Method::Union {
+            members[new] = sorted_union(&members[a], &members[b]);
+        }
+        size[new] = size[a] + size[b];
         for c in 0..nodes {
             if !live[c] || c == a || c == b {
                 continue;
@@ -1935,20 +2041,26 @@ fn big_reference(n: usize, method: Method, l: BigLayout) -> RefRun {
                     }
                 }
                 Method::Average => (x + y) / 2.0,
-                Method::Union => big_value(n, l, &members[new], &members[c]),
+                Method::Union => l.value(&members[new], &members[c]),
             };
             d[c * nodes_max + new] = nv;
             d[new * nodes_max + c] = nv;
+            if method == Method::Average {
+                let e = (err[c * nodes_max + a] + err[c * nodes_max + b]) / 2.0 + ulp(nv);
+                err[c * nodes_max + new] = e;
+                err[new * nodes_max + c] = e;
+            }
         }
         live[a] = false;
         live[b] = false;
         live[new] = true;
-        out.merges.push((a, b, v, members[new].len()));
+        out.merges.push((a, b, v, size[new]));
     }
     out
 }
 
-fn big_check(n: usize, method: Method, obs: &Obs, rf: &RefRun, rec: &BigRec) -> Option<Fail> {
+fn big_check(inputs: &[Vec<u16>], method: Method, obs: &Obs, rf: &RefRun, rec: &BigRec) -> Option<Fail> {
+    let n = inputs.len();
     let site = method.site();
     if rec.calls == 0 {
         return fail(site, "the distance callback is never invoked", format!("n={n}"));
@@ -1958,34 +2070,34 @@ fn big_check(n: usize, method: Method, obs: &Obs, rf: &RefRun, rec: &BigRec) -> 
         return fail(
             site,
             "distance callback received a malformed set (a term twice or terms not ascending in its iteration, or len() != number of distinct terms)",
-            format!("n={n}: {} sets that are malformed or hold a term of no input, the first one iterates {:?} and has len() {}", rec.malformed, ids, len),
+            format!("n={n}: {} sets that are malformed or hold a term of no input, the first one iterates {:?} and has len() {}", rec.malformed, crate::model::short(&format!("{ids:?}")), len),
         );
     }
-    // ---- first invocation: every unordered pair of inputs exactly once
+    // ---- initial phase (the first n(n-1)/2 pairs, in however many invocations): every unordered pair of inputs once
+    let index_of: std::collections::HashMap<&[u16], usize> = inputs.iter().enumerate().map(|(i, v)| (v.as_slice(), i)).collect();
+    let m = n_pairs(n);
     {
         let mut seen = vec![0u8; n * n];
-        let mut count = 0usize;
         let mut bad: Option<String> = None;
-        for (call, a, b) in &rec.pairs {
-            if *call != 0 {
-                break;
-            }
-            count += 1;
-            if a.len() != 1 || b.len() != 1 || a[0] == b[0] {
-                bad.get_or_insert(format!("pair ({a:?}, {b:?}) is not a pair of two different inputs"));
-                continue;
-            }
-            let (i, j) = (a[0].min(b[0]) as usize, a[0].max(b[0]) as usize);
-            seen[i * n + j] = seen[i * n + j].saturating_add(1);
+        if rec.pairs.len() < m {
+            bad = Some(format!("{} pairs in all instead of at least {m}", rec.pairs.len()));
         }
-        if bad.is_none() && count != n_pairs(n) {
-            bad = Some(format!("{count} pairs instead of {}", n_pairs(n)));
+        for (_, a, b) in rec.pairs.iter().take(m) {
+            match (index_of.get(a.as_slice()), index_of.get(b.as_slice())) {
+                (Some(&i), Some(&j)) if i != j => {
+                    let (i, j) = (i.min(j), i.max(j));
+                    seen[i * n + j] = seen[i * n + j].saturating_add(1);
+                }
+                _ => {
+                    bad.get_or_insert(format!("among the first {m} pairs there is ({}, {}), which is not a pair of two different inputs", crate::model::short(&format!("{a:?}")), crate::model::short(&format!("{b:?}"))));
+                }
+            }
         }
         if bad.is_none() {
             'outer: for i in 0..n {
                 for j in i + 1..n {
                     if seen[i * n + j] != 1 {
-                        bad = Some(format!("the pair of inputs ({i},{j}) occurs {} times", seen[i * n + j]));
+                        bad = Some(format!("the pair of inputs ({i},{j}) occurs {} times among the first {m} pairs", seen[i * n + j]));
                         break 'outer;
                     }
                 }
@@ -2045,35 +2157,38 @@ fn big_check(n: usize, method: Method, obs: &Obs, rf: &RefRun, rec: &BigRec) -> 
             }));
         }
     }
-    // ---- later invocations (union): left set = exact union of the two merged sets, right set = a live cluster
-    if rec.calls > 1 {
-        let mut members: Vec<Vec<u16>> = (0..n).map(|i| vec![i as u16]).collect();
+    // ---- pairs after the initial phase (union): matched BY CONTENT to the library's own merges: one side (either
+    //      position) is exactly the union of the two sets joined by some merge k, the other side a cluster live
+    //      right after merge k (or that union itself)
+    if rec.pairs.len() > m {
+        let mut members: Vec<Vec<u16>> = inputs.to_vec();
         for &(l, r, _, _) in &obs.cluster {
-            let mut m = members[l].clone();
-            m.extend_from_slice(&members[r]);
-            m.sort_unstable();
-            members.push(m);
+            let u = sorted_union(&members[l], &members[r]);
+            members.push(u);
         }
-        let mut dead = vec![usize::MAX; nodes_max]; // merge step that consumed the index
+        let mut dead = vec![usize::MAX; nodes_max];
         for (k, &(l, r, _, _)) in obs.cluster.iter().enumerate() {
             dead[l] = k;
             dead[r] = k;
         }
-        for (call, a, b) in &rec.pairs {
-            if *call == 0 {
-                continue;
-            }
-            let k = *call as usize - 1;
-            if k >= n - 1 {
-                continue;
-            }
-            let new = n + k;
-            let live_has = (0..=new).any(|x| dead[x] > k && &members[x] == b);
-            if a != &members[new] || !live_has {
+        let mut by_content: std::collections::HashMap<&[u16], Vec<usize>> = std::collections::HashMap::new();
+        for (x, mem) in members.iter().enumerate() {
+            by_content.entry(mem.as_slice()).or_default().push(x);
+        }
+        let empty: Vec<usize> = vec![];
+        for (call, a, b) in rec.pairs.iter().skip(m) {
+            let (xa, xb) = (by_content.get(a.as_slice()).unwrap_or(&empty), by_content.get(b.as_slice()).unwrap_or(&empty));
+            // x is the cluster formed by merge x-n, y is live right after that merge (or is x itself)
+            let fits = |xs: &Vec<usize>, ys: &Vec<usize>| xs.iter().any(|&x| x >= n && ys.iter().any(|&y| y <= x && dead[y] > x - n));
+            if !(fits(xa, xb) || fits(xb, xa)) {
                 return fail(
                     "Linkage::union",
                     "distance callback received a set that is not the union of the merged sets",
-                    format!("n={n}: after merge {k} = ({},{}) the new cluster is the union of inputs {:?}; the callback was asked for (inputs {:?}, inputs {:?})", obs.cluster[k].0, obs.cluster[k].1, members[new], a, b),
+                    format!(
+                        "n={n}: invocation {call} asks for ({}, {}) (term indices); no merge forms one of these sets as the union of its two parts with the other one live at that moment",
+                        crate::model::short(&format!("{a:?}")),
+                        crate::model::short(&format!("{b:?}"))
+                    ),
                 );
             }
         }
@@ -2090,44 +2205,64 @@ fn big_check(n: usize, method: Method, obs: &Obs, rf: &RefRun, rec: &BigRec) -> 
                 format!("n={n}: merge {k} joins ({l},{r}) at {}, the closest pair is ({a},{b}) at {v}", f32::from_bits(dbits)),
             );
         }
-        if dbits != v.to_bits() {
+        let distance_ok = if method == Method::Average { (f32::from_bits(dbits) as f64 - v as f64).abs() <= rf.errs[k] || dbits == v.to_bits() } else { dbits == v.to_bits() };
+        if !distance_ok {
             return fail(
                 site,
                 "the reported distance of a merge is not the distance of the joined pair under the method's update rule",
-                format!("n={n}: merge {k} joins ({l},{r}) reporting {}, the distance of that pair is {v}", f32::from_bits(dbits)),
+                format!("n={n}: merge {k} joins ({l},{r}) reporting {:e}, the distance of that pair is {v:e}", f32::from_bits(dbits)),
             );
         }
     }
     None
 }
 
-fn big_rust(n: usize, method: Method, l: BigLayout, adaptor: Adaptor) -> String {
+fn big_rust(inputs: &[Vec<u16>], method: Method, l: &BigLayout, adaptor: Adaptor) -> String {
     let mut s = String::new();
     s.push_str("use hpo::{HpoSet, stats::Linkage, term::HpoGroup, utils::Combinations};\n");
     s.push_str(&format!("let mut b = hpo::builder::Builder::new();\nb.new_term(\"root\", 1u32);\nfor i in 0..{BIG_TERMS}u32 {{ b.new_term(&format!(\"T{{}}\", {BIG_BASE} + i), {BIG_BASE} + i); }}\nlet mut b = b.terms_complete();\nfor i in 0..{BIG_TERMS}u32 {{ b.add_parent(1u32, {BIG_BASE} + i).unwrap(); }}\nlet ont = b.connect_all_terms().calculate_information_content().unwrap().build_minimal();\n"));
-    s.push_str(&format!("let n = {n}u64; // input i is the singleton set {{{BIG_BASE} + i}}\n"));
-    s.push_str(&format!("// base distance of inputs i < j: pair index p = i*n - i*(i+1)/2 + (j-i-1); ((p * {} + {}) % {BIG_M} + 1) / 2^17; two sets: mean over their members\n", l.a, l.b));
-    s.push_str(&format!("let base = |i: u64, j: u64| -> u64 {{ let (i, j) = (i.min(j), i.max(j)); let p = i * n - i * (i + 1) / 2 + (j - i - 1); (p * {} + {}) % {BIG_M} + 1 }};\n", l.a, l.b));
+    if inputs.iter().enumerate().all(|(i, v)| v.len() == 1 && v[0] as usize == i) {
+        s.push_str(&format!("let inputs: Vec<Vec<u32>> = (0..{}u32).map(|i| vec![i]).collect(); // term indices; term id = {BIG_BASE} + index\n", inputs.len()));
+    } else {
+        s.push_str(&format!("let inputs: Vec<Vec<u32>> = vec!{:?}; // term indices; term id = {BIG_BASE} + index\n", inputs).replace("], [", "], vec![").replace("vec![[", "vec![vec!["));
+    }
+    match l {
+        BigLayout::Formula { a, b, .. } => {
+            s.push_str(&format!("// base distance of two different terms x < y (indices): pair index p = x*{BIG_TERMS} - x*(x+1)/2 + (y-x-1); ((p * {a} + {b}) % {BIG_M} + 1) / 2^18; a term is at 0 from itself\n"));
+            s.push_str(&format!("let base = |x: u64, y: u64| -> u64 {{ if x == y {{ return 0; }} let (x, y) = (x.min(y), x.max(y)); let p = x * {BIG_TERMS} - x * (x + 1) / 2 + (y - x - 1); (p * {a} + {b}) % {BIG_M} + 1 }};\n"));
+        }
+        BigLayout::Matrix { k, ints, .. } => {
+            s.push_str(&format!("// base distances of the terms (indices) as a {k} x {k} table, / 2^18\nlet table: Vec<u64> = vec!{:?};\nlet base = |x: u64, y: u64| -> u64 {{ table[(x * {k} + y) as usize] }};\n", ints));
+        }
+    }
     s.push_str(&format!("let ids = |x: &HpoSet<'_>| -> Vec<u64> {{ x.iter().map(|t| (hpo::annotations::AnnotationId::as_u32(&t.id()) - {BIG_BASE}) as u64).collect() }};\n"));
     s.push_str("let dist = |c: Combinations<HpoSet<'_>>| -> Vec<f32> { c.map(|(a, b)| {\n    let (a, b) = (ids(a), ids(b));\n    if a == b { return 0.0; } // the library also asks for a merged set against itself\n");
-    s.push_str("    let mut sum = 0u64; for i in &a { for j in &b { sum += base(*i, *j); } }\n    (sum as f64 / (a.len() * b.len()) as f64 / 131072.0) as f32\n}).collect() };\n");
-    s.push_str(&format!("let sets: Vec<HpoSet<'_>> = (0..n as u32).map(|i| {{ let mut g = HpoGroup::new(); g.insert({BIG_BASE} + i); HpoSet::new(&ont, g) }}).collect();\n"));
+    s.push_str("    let mut sum = 0u64; for i in &a { for j in &b { sum += base(*i, *j); } }\n    (sum as f64 / (a.len() * b.len()) as f64 / 262144.0) as f32\n}).collect() };\n");
+    s.push_str(&format!("let sets: Vec<HpoSet<'_>> = inputs.iter().map(|ts| {{ let mut g = HpoGroup::new(); for t in ts {{ g.insert({BIG_BASE} + *t); }} HpoSet::new(&ont, g) }}).collect();\n"));
     s.push_str(&format!("let l = Linkage::{}({}, dist);\n", method.name(), adaptor.rust()));
     s.push_str("for (k, c) in l.cluster().enumerate() { println!(\"{} {} {} {} {}\", k, c.lhs(), c.rhs(), c.distance(), c.len()); }\nprintln!(\"{:?}\", l.indicies());\n");
     s
 }
 
-/// One space of clusterings of many singleton inputs: cases = runs (n, method, layout).
-fn big_space(ctx: &mut Ctx, name: &str, runs: &[(usize, Method, usize)]) {
-    let ns: std::collections::BTreeSet<usize> = runs.iter().map(|r| r.0).collect();
-    let ms: std::collections::BTreeSet<&str> = runs.iter().map(|r| r.1.name()).collect();
-    let ls: std::collections::BTreeSet<&str> = runs.iter().map(|r| BIG_LAYOUTS[r.2].name).collect();
-    ctx.space(
-        name,
-        &format!("many singleton inputs over a flat ontology of {BIG_TERMS} terms: n in {ns:?} x methods {ms:?} x distance layouts {ls:?} (pair index p -> ((p a + b) mod {BIG_M} + 1)/2^17, all pairs distinct): {} clusterings, one case each", runs.len()),
-    );
+fn singletons(n: usize) -> Vec<Vec<u16>> {
+    (0..n).map(|i| vec![i as u16]).collect()
+}
+
+/// One clustering of the big machinery: (description of the inputs, inputs, method, layout).
+struct BigRun {
+    what: String,
+    inputs: Vec<Vec<u16>>,
+    method: Method,
+    layout: BigLayout,
+    /// the merge history the layout is built to force (harness self-check on the reference)
+    expect_history: Option<Vec<(usize, usize)>>,
+}
+
+/// One space of clusterings over the big ontology: one case per run.
+fn big_space(ctx: &mut Ctx, name: &str, bound: &str, runs: &[BigRun]) {
+    ctx.space(name, &format!("{bound}: {} clusterings, one case each", runs.len()));
     let mut ont: Option<Ontology> = None;
-    for (idx, &(n, method, layout)) in runs.iter().enumerate() {
+    for (idx, run) in runs.iter().enumerate() {
         if !ctx.take() {
             continue;
         }
@@ -2140,25 +2275,30 @@ fn big_space(ctx: &mut Ctx, name: &str, runs: &[(usize, Method, usize)]) {
             match drive::build(&facts, Mode::Minimal) {
                 Ok(o) => ont = Some(o),
                 Err(e) => {
-                    ctx.violation("Builder", "construction fails on valid facts", json!({"facts": "root 1 + 310 children 1000..1310", "observed": e}));
+                    ctx.violation("Builder", "construction fails on valid facts", json!({"facts": format!("root 1 + {BIG_TERMS} children from {BIG_BASE}"), "observed": e}));
                     return;
                 }
             }
         }
         let ont_ref = ont.as_ref().expect("built above");
-        let l = BIG_LAYOUTS[layout];
+        let (inputs, method, l) = (&run.inputs, run.method, &run.layout);
+        let n = inputs.len();
         let adaptor = ADAPTORS[idx % ADAPTORS.len()];
         ctx.state();
         ctx.exec();
         ctx.transitions(4 + n as u64 - 1);
-        let rf = big_reference(n, method, l);
+        let rf = big_reference(inputs, method, l);
+        if let Some(h) = &run.expect_history {
+            let same = rf.tie_at.is_none() && rf.merges.iter().map(|m| (m.0, m.1)).collect::<Vec<_>>() == *h;
+            assert!(same, "C17 harness: the table built for history {h:?} does not force it under {} (tie {:?})", method.name(), rf.tie_at);
+        }
         let rec = RefCell::new(BigRec::default());
-        let got = big_run_lib(ont_ref, n, method, l, &rec, adaptor);
+        let got = big_run_lib(ont_ref, inputs, method, l, &rec, adaptor);
         let rec = rec.borrow();
         let detail = |extra: Value| {
-            json!({"n": n, "method": method.name(), "inputs": format!("singletons {{{BIG_BASE}+i}}, i in 0..{n}"), "inputs_handed_in_as": adaptor.name(),
-                "distance_layout": {"name": l.name, "a": l.a, "b": l.b, "modulus": BIG_M, "scale": "2^-17"},
-                "reference_first_tie_at_step": rf.tie_at, "observed": extra, "rust": big_rust(n, method, l, adaptor)})
+            json!({"n": n, "method": method.name(), "inputs": run.what, "inputs_handed_in_as": adaptor.name(),
+                "distance_layout": l.name(),
+                "reference_first_tie_at_step": rf.tie_at, "observed": extra, "rust": big_rust(inputs, method, l, adaptor)})
         };
         match got {
             Err(p) => ctx.violation(method.site(), "panics", detail(json!({"panic": p}))),
@@ -2166,7 +2306,7 @@ fn big_space(ctx: &mut Ctx, name: &str, runs: &[(usize, Method, usize)]) {
                 if obs.inexact_size_hint {
                     ctx.bump("cluster_iter_size_hint_not_exact (ExactSizeIterator contract, not part of the property)", 1);
                 }
-                match big_check(n, method, &obs, &rf, &rec) {
+                match big_check(inputs, method, &obs, &rf, &rec) {
                     Some(f) => {
                         let first: Vec<Value> = rf.merges.iter().take(12).map(|&(a, b, v, s)| json!([a, b, fj(v), s])).collect();
                         ctx.violation(&f.site, f.sig, detail(json!({"difference": f.det, "callback_invocations": rec.calls, "first_reference_merges": first, "first_observed_merges": fmt_merges(&obs.cluster[..obs.cluster.len().min(12)])})));
@@ -2174,7 +2314,7 @@ fn big_space(ctx: &mut Ctx, name: &str, runs: &[(usize, Method, usize)]) {
                     None => {
                         if rf.tie_at.is_some() {
                             ctx.bump("ties", 1);
-                            ctx.bump(&format!("ties/many-inputs/n{n}/{}", method.name()), 1);
+                            ctx.bump(&format!("ties/{name}/{}", method.name()), 1);
                         } else {
                             ctx.validated();
                             ctx.nontrivial();
@@ -2190,13 +2330,63 @@ fn big_space(ctx: &mut Ctx, name: &str, runs: &[(usize, Method, usize)]) {
                     bytes.push(method as u8);
                     ctx.outcome(fnv(&bytes));
                 }
-                ctx.sample(|| json!({"n": n, "method": method.name(), "layout": l.name, "inputs_handed_in_as": adaptor.name(), "callback_invocations": rec.calls,
+                ctx.sample(|| json!({"n": n, "inputs": run.what, "method": method.name(), "layout": l.name(), "inputs_handed_in_as": adaptor.name(), "callback_invocations": rec.calls,
+                    "reference_first_tie_at_step": rf.tie_at,
                     "first_merges": fmt_merges(&obs.cluster[..obs.cluster.len().min(5)]), "last_merge": fmt_merges(&obs.cluster[obs.cluster.len().saturating_sub(1)..])}));
             }
         }
     }
 }
 
+/// A deterministic lattice of merge histories for medium n: history h joins at step s the pair number
+/// (h * (2s+3) + s*s + h/7) mod (number of pairs of the live clusters) in lexicographic order of the live list.
+fn lattice_history(n: usize, h: usize) -> Vec<(usize, usize)> {
+    let mut live: Vec<usize> = (0..n).collect();
+    let mut hist = vec![];
+    for s in 0..n - 1 {
+        let k = live.len();
+        let pairs = k * (k - 1) / 2;
+        let mut pick = (h * (2 * s + 3) + s * s + h / 7) % pairs;
+        let (mut x, mut y) = (0, 1);
+        'find: for a in 0..k {
+            for b in a + 1..k {
+                if pick == 0 {
+                    x = a;
+                    y = b;
+                    break 'find;
+                }
+                pick -= 1;
+            }
+        }
+        hist.push((live[x], live[y]));
+        live.remove(y);
+        live.remove(x);
+        live.push(n + s);
+    }
+    hist
+}
+
+/// The perturbed ultrametric table forcing `hist` (see `history_ints`), for any n <= 40: height (s+1)*4096 plus a
+/// distinct perturbation (11 p mod 1021) + 1 < 1024 per pair index p.
+fn history_matrix(n: usize, hist: &[(usize, usize)]) -> Vec<u64> {
+    let mut members: Vec<Vec<usize>> = (0..n).map(|i| vec![i]).collect();
+    let mut ints = vec![0u64; n * n];
+    for (s, &(a, b)) in hist.iter().enumerate() {
+        for &i in &members[a] {
+            for &j in &members[b] {
+                let (lo, hi) = (i.min(j), i.max(j));
+                let p = lo * n - lo * (lo + 1) / 2 + (hi - lo - 1);
+                let v = ((s as u64 + 1) << 12) | ((11 * p as u64) % 1021 + 1);
+                ints[i * n + j] = v;
+                ints[j * n + i] = v;
+            }
+        }
+        let mut m = members[a].clone();
+        m.extend_from_slice(&members[b]);
+        members.push(m);
+    }
+    ints
+}
 
 pub fn run(ctx: &mut Ctx) {
     ctx.rule = "an input = (n pairwise term-disjoint input sets, a rank order of the base distances, a linkage method); base distances are those between the atoms (terms; an empty set counts as one pseudo-atom) of the inputs - for singleton inputs these are the n(n-1)/2 pairwise distances - and two sets are at the mean of the base distances between their atoms; \
@@ -2209,9 +2399,9 @@ pub fn run(ctx: &mut Ctx) {
     ctx.assumptions = vec![
         "symmetric distance functions only: the callback is a pure function of the unordered content of the two sets".into(),
         "no ties are constructed; where the size-weighted/plain means produce equal f32 values at the minimum, the run is counted in extra.ties and compared only up to that step".into(),
-        "`average` is checked against the documented rule (mean of the distances of the two merged parts, not size-weighted UPGMA)".into(),
+        "`average` is checked against the documented rule (mean of the distances of the two merged parts, not size-weighted UPGMA); the arithmetic of the mean is not fixed by the property: the reported distance may deviate from the reference's f32 (x+y)/2 by one unit in the last place per mean taken (a mean of means inherits half of each part's deviation), and a step at which another live pair lies within these deviations of the closest one counts as a tie".into(),
         "for `union` the user distance of (merged set, other live set) is the mean of the base distances between the terms of the TRUE union of the merged input sets and the terms of the other set, computed by the same function in the callback (from the content it is handed) and in the reference (from the inputs)".into(),
-        "the FIRST callback invocation is subject to the accounting oracle (each unordered pair of inputs exactly once; the order inside the call is not demanded); of later invocations (union) it is demanded that the left set is exactly the union of the two sets just merged and the right set a live cluster or that union itself (union also asks for the merged set against itself - counted in extra, ignored by the library, not a violation)".into(),
+        "callback accounting: the first n(n-1)/2 pairs received - in one or several invocations, in any order - must be each unordered pair of inputs exactly once (so every initial pair is asked before any pair with a merged set); every later pair (union) must be matched by content to one of the library's own merges: one side, in either position, is exactly the union of the two sets joined by that merge and the other side is a cluster live right after it (or that union itself - the library asks the merged set against itself; counted in extra, not a violation); which invocation a pair arrives in is not demanded".into(),
         "empty input sets are legal inputs (e.g. the set of an unannotated gene) and are clustered like any other; with two empty inputs the initial call is keyed by input index (both have the same content), so every unordered pair of inputs has its own distance; afterwards an empty set is keyed by its (empty) content, which makes two live empty sets equidistant to a new cluster (counted as ties when minimal)".into(),
         "input sets may contain terms related by is_a (an ancestor in one input, its descendant in another or the same): clustering must not normalise the content of merged sets".into(),
         "(lhs, rhs) of a merge is compared as an unordered pair".into(),
@@ -2226,6 +2416,7 @@ pub fn run(ctx: &mut Ctx) {
         "subnormal distances are legal: `average` must report the mean of the two parts exactly where it is representable (the subnormal family makes every such mean an integer multiple of 2^-149)".into(),
         "at the top of the f32 range the documented mean of two parts is finite while the sum-then-halve arithmetic overflows: such `average` runs are don't-care from the first merge that depends on an overflowing sum (counted in extra.average_sum_overflow_dont_care)".into(),
         "all views of the result must agree with the forward iteration of cluster(): rev(), (&linkage).into_iter(), iter(), nth(k) for every k (the merge addressed as index n+k), last(), count(), len()/size_hint() after taking k items, alternating next()/next_back(), and the owned iteration (into_cluster(), linkage.into_iter(), reversed, from both ends)".into(),
+        "an exact 0.0 is a legal distance at any rank (identical phenotype sets): the zero-at-rank families shift the values so that one pair is at exactly 0.0, closer pairs negative".into(),
         "n = 0 and n = 1 are don't-care: executed under catch_unwind, nothing is demanded".into(),
         "ontology: Builder, build_minimal; root 1; 2,3,4,6,8,9,10,11 children of 1; 5 child of 2; 7 child of 5; the main spaces use singletons of the pairwise unrelated terms 2,3,4,6,8,9,10".into(),
     ];
@@ -2339,6 +2530,7 @@ pub fn run(ctx: &mut Ctx) {
                 Family::Subnormal => "every distance an odd multiple (1 mod 8) of the smallest subnormal 2^-149, so that every mean of two parts is exactly representable while halving one value alone is not".to_string(),
                 Family::Top => "scaled so that the largest distance lies in [2^127, 2^128): min, max and the callback are exact; for `average` a mean whose f32 sum overflows is don't-care (compared up to that merge, counted in extra)".to_string(),
                 Family::EqualPair => "the first two ranks >= 1 whose pairs share an input at the same value (two inputs equidistant from a third, the closest pair unique)".to_string(),
+                Family::ZeroRank0 | Family::ZeroRank1 | Family::ZeroRankMid | Family::ZeroRankTop => format!("shifted so that the pair of rank {} is at exactly 0.0 (closer pairs negative, the others positive)", zero_rank(fam, m).unwrap_or(0)),
                 _ => format!("every distance {}", fam.name()),
             };
             ctx.space(
@@ -2348,6 +2540,8 @@ pub fn run(ctx: &mut Ctx) {
             exhaustive(ctx, &env, &Inputs::flat(n), fam, &format!("{}-values", fam.name()), true, &METHODS);
         }
     };
+    scaled(ctx, 3, &[Family::ZeroRank0, Family::ZeroRank1, Family::ZeroRankTop]);
+    scaled(ctx, 4, &[Family::ZeroRank0, Family::ZeroRank1, Family::ZeroRankMid, Family::ZeroRankTop]);
     scaled(ctx, 2, &[Family::Tiny30, Family::Tiny100, Family::Huge60, Family::Subnormal, Family::Top]);
     scaled(ctx, 3, &[Family::Tiny30, Family::Tiny60, Family::Tiny100, Family::Huge60, Family::MixedTiny2, Family::Subnormal, Family::Top, Family::EqualPair]);
     scaled(ctx, 4, &[Family::Tiny30, Family::Tiny60, Family::Tiny100, Family::Huge60, Family::MixedTiny2, Family::MixedTinyHalf, Family::Subnormal, Family::Top, Family::EqualPair]);
@@ -2545,7 +2739,7 @@ pub fn run(ctx: &mut Ctx) {
         families(ctx, 5);
         infinite(ctx, 5);
         negative(ctx, 5, &[Family::NegHalf, Family::NegAll]);
-        scaled(ctx, 5, &[Family::Tiny100, Family::MixedTinyHalf, Family::Subnormal, Family::EqualPair]);
+        scaled(ctx, 5, &[Family::Tiny100, Family::MixedTinyHalf, Family::Subnormal, Family::EqualPair, Family::ZeroRank0]);
         // 5 atoms = 10 base distances: 10! rank orders each
         with_empties(ctx, 5, 1, &[2, 5, 3, 4], "one-empty-input");
         histories(ctx, &env, 8, 0, 0);
@@ -2555,26 +2749,84 @@ pub fn run(ctx: &mut Ctx) {
         related(ctx, 4, 5, false);
     }
 
-    // ---- many inputs: anything that depends on the NUMBER of inputs / clusters (index widths, pre-sized tables)
+    // ---- many inputs: anything that depends on the NUMBER of inputs / clusters / pairs (index widths, pre-sized tables)
     {
+        let run = |n: usize, method: Method, l: usize| BigRun { what: format!("{n} singletons {{{BIG_BASE}+i}}"), inputs: singletons(n), method, layout: big_layout(l), expect_history: None };
+        let formula = format!("distance of terms = ((p a + b) mod {BIG_M} + 1)/2^18 over the pair index p (all pairs distinct), sets at the mean over their members; flat ontology of {BIG_TERMS} terms");
         let ns: &[usize] = if thorough { &[255, 256, 257, 300] } else { &[256, 257, 300] };
         let layouts: &[usize] = if thorough { &[0, 1, 2, 3] } else { &[0, 1] };
         let mut runs = vec![];
         for &n in ns {
             for method in [Method::Single, Method::Complete, Method::Average] {
                 for &l in layouts {
-                    runs.push((n, method, l));
+                    runs.push(run(n, method, l));
                 }
             }
         }
-        big_space(ctx, "many-inputs/single+complete+average", &runs);
+        big_space(ctx, "many-inputs/single+complete+average", &format!("n in {ns:?} singleton inputs x {{single, complete, average}} x layouts {layouts:?}; {formula}"), &runs);
+        // union: 64 (slots up to 126), 65 (first slot 127/128), 129 (first slot 255/256), 257 inputs
         let mut runs = vec![];
-        for &n in if thorough { &[64usize, 130][..] } else { &[64usize][..] } {
-            for &l in layouts {
-                runs.push((n, Method::Union, l));
+        for &l in layouts {
+            runs.push(run(64, Method::Union, l));
+        }
+        for (n, l) in [(65usize, 2usize), (129, 1), (257, 0)] {
+            runs.push(run(n, Method::Union, l));
+        }
+        if thorough {
+            for (n, l) in [(65usize, 0usize), (128, 3), (129, 0), (130, 0), (130, 1), (256, 3), (257, 1)] {
+                runs.push(run(n, Method::Union, l));
             }
         }
-        big_space(ctx, "many-inputs/union", &runs);
+        big_space(ctx, "many-inputs/union", &format!("union linkage of 64 / 65 / 129 / 257 (thorough also 128 / 130 / 256) singleton inputs; {formula}"), &runs);
+        // more than 2^16 pairs
+        let mut runs = vec![run(400, Method::Single, 0), run(400, Method::Average, 0)];
+        if thorough {
+            runs.push(run(400, Method::Complete, 0));
+            runs.push(run(400, Method::Single, 1));
+            runs.push(run(400, Method::Average, 3));
+            runs.push(run(363, Method::Complete, 3));
+        }
+        big_space(ctx, "many-inputs/more-than-2^16-pairs", &format!("n = 400 singleton inputs (79 800 pairs; thorough also 363 = the first n with more than 65 536 pairs); {formula}"), &runs);
+
+        // ---- large overlapping input sets: the merged sets cross 30 terms WITH duplicates to remove
+        let range = |a: u16, b: u16| (a..b).collect::<Vec<u16>>();
+        let evens = |a: u16, b: u16| (a..=b).filter(|x| x % 2 == 0).collect::<Vec<u16>>();
+        let fams: Vec<(String, Vec<Vec<u16>>)> = vec![
+            ("terms 0..22 | 10..34 | 30..70 | even 0..=30 (22, 24, 40 and 16 terms, pairwise overlapping)".to_string(), vec![range(0, 22), range(10, 34), range(30, 70), evens(0, 30)]),
+            ("terms 5..45 | even 0..=30 | 0..16 | 12..40 (40, 16, 16 and 28 terms, pairwise overlapping, nested parts)".to_string(), vec![range(5, 45), evens(0, 30), range(0, 16), range(12, 40)]),
+        ];
+        let mut runs = vec![];
+        for (what, inputs) in &fams {
+            for &method in &[Method::Union, Method::Single, Method::Complete, Method::Average] {
+                for l in 0..4 {
+                    if method != Method::Union && l >= 2 && !thorough {
+                        continue;
+                    }
+                    runs.push(BigRun { what: what.clone(), inputs: inputs.clone(), method, layout: big_layout(l), expect_history: None });
+                }
+            }
+        }
+        big_space(ctx, "large-overlapping-inputs/all-methods", &format!("4 input sets of 16..40 terms with pairwise overlaps (2 families) x 4 layouts for union, 2 (thorough 4) for the others; content oracle: every set handed to the callback is well formed and, after the initial phase, the exact union of two merged sets; {formula}, a term at 0 from itself"), &runs);
+
+        // ---- medium n: a deterministic lattice of merge histories, forced by perturbed ultrametric tables
+        let per_n = if thorough { 60 } else { 10 };
+        let mut runs = vec![];
+        for n in [12usize, 20, 33] {
+            for h in 0..per_n {
+                let hist = lattice_history(n, h);
+                let ints = history_matrix(n, &hist);
+                for &method in &METHODS {
+                    runs.push(BigRun {
+                        what: format!("{n} singletons, merge history number {h} of the lattice"),
+                        inputs: singletons(n),
+                        method,
+                        layout: BigLayout::Matrix { name: format!("perturbed ultrametric table forcing lattice history {h}"), k: n, ints: ints.clone() },
+                        expect_history: Some(hist.clone()),
+                    });
+                }
+            }
+        }
+        big_space(ctx, "medium-n/lattice-of-merge-histories/all-methods", &format!("n in {{12, 20, 33}} x {per_n} merge histories each (history h joins at step s the pair number (h(2s+3) + s^2 + h/7) mod #pairs of the live clusters), forced by tables with height (s+1)*4096 + a distinct perturbation < 1024 per pair, / 2^18, x 4 methods"), &runs);
     }
 
     // ---- n = 6, 7: Kendall-tau balls around three base orders
